@@ -305,7 +305,9 @@ impl<'a> Compiler<'a> {
             }
         }
         let i = upvalues.len();
-        upvalues.push(Upvalue { is_local, index });
+        if upvalues.try_push(Upvalue { is_local, index }).is_err() {
+            return Err(self.error(CompilationErrorPayload::TooManyUpvalues));
+        }
         Ok(i)
     }
 
